@@ -4,6 +4,7 @@ Eval with Dim.tla) determines the dimensionality or the refusal of each. Leaf va
 registry dump of the loaded context, all algebra on top is the specification's."""
 import json
 import random
+from fractions import Fraction
 
 import evalkit
 import vlib
@@ -13,6 +14,62 @@ UNIT_LITS = ["1", "m", "s", "(m/s)", "m^2", "(1/s)", "kg", "radian", "'widget'",
 EXPO_LITS = ["2", "-2", "0", "(1|2)", "(1|3)", "3", "-1"]
 FUNCS1 = ["sqrt", "sin", "cos", "tan", "asin", "acos", "atan", "exp", "ln", "sinh"]
 FUNCS2 = ["hypot", "atan2", "log"]
+# float-valued exponent expressions (whole, 1/n, neither; positive, zero, negative) and the bases they are applied to
+FEXPS = ["sqrt(2)", "ln(3)", "sqrt(0.25)", "sqrt(4)", "exp(0)", "sin(0)", "hypot(3, 4)", "(sqrt(9) / 2)", "(0 - sqrt(4))",
+         "(0 - sqrt(0.25))", "sqrt(1|9)", "sqrt(1|16)", "log2(8)", "(cos(0) * 3)", "atan2(0, 1)"]
+FBASES = ["(3 m)", "(2 kg)", "(4 m^2)", "(9 m^2/s^4)", "5", "(16 m^4 kg^-8)", "(0 m)", "(m/m)", "(sqrt(4) m^2)"]
+
+
+def limbs(n):
+    out = []
+    while n:
+        out.append(n % 4096)
+        n //= 4096
+    return out
+
+
+def float_exponent_leg(run, env, thorough):
+    """B ^ E with a float-valued E: the exponent is evaluated on its own first, and the specification judges the power
+    GIVEN that observed value (Query.tla PowWithObservedExponent)."""
+    bases = FBASES if thorough else FBASES[:7]
+    texts, r = evalkit.gen_cases("c02fexp", "tree", lits=bases + FEXPS, binops=["^"], maxbin=1)
+    run.add_tlc(r, "MC_ExprGen tree (float exponents)")
+    want = {"(%s ^ %s)" % (b, e): e for b in bases for e in FEXPS}
+    pairs = [(t, want[t]) for t in texts if t in want]
+    if len(pairs) != len(bases) * len(FEXPS):
+        raise vlib.ToolError("float-exponent leg: TLC produced %d of %d base^exponent texts" % (len(pairs), len(bases) * len(FEXPS)))
+    res_e = evalkit.run_eval([{"qs": e} for e in FEXPS], ctx="bundled", shards=1, tag="c02fe")
+    val = {}
+    for e, r0 in zip(FEXPS, res_e):
+        o = r0.get("obs") or {}
+        if o.get("t") == "float" and o.get("f") not in (None, "NaN", "inf", "-inf"):
+            fr = Fraction(float(o["f"]))
+            val[e] = {"n": {"neg": fr < 0, "mag": limbs(abs(fr.numerator))}, "d": limbs(fr.denominator)}
+    if len(val) < len(FEXPS) - 2:
+        raise vlib.ToolError("float-exponent leg: only %d of %d exponent expressions evaluated to a float" % (len(val), len(FEXPS)))
+    pairs = [(t, e) for t, e in pairs if e in val]
+    res = evalkit.run_eval([{"qs": t} for t, _ in pairs], ctx="bundled", shards=2, tag="c02fp")
+    events = [evalkit.slim_event(r1, extra={"fexp": val[e]}, keep_parts=True) for r1, (_, e) in zip(res, pairs)]
+    verdicts, st = evalkit.judge(events, "Trace_Query", shards=2, tag="c02jfexp", env=env, min_per_shard=20)
+    run.cov["states"] += st["distinct"]
+    run.cov["transitions"] += st["generated"]
+    run.traces(len(events))
+    nsil = 0
+    for i, (t, e) in enumerate(pairs):
+        run.count()
+        v = verdicts.get(i, set())
+        if "SILENT" in v or "UNSUPPORTED" in v:
+            nsil += 1
+            continue
+        run.nontrivial(t)
+        if "REJECT" in v or "CRASH" in v:
+            run.violation({"engine": "query", "leg": "float-exponent", "q": t, "exponent": e, "exponent_value": res_e[FEXPS.index(e)]["obs"].get("f")},
+                          "given the value the code itself computes for the exponent: the integer power, the exact root, or a refusal "
+                          "for a base that carries units", evalkit.strip_nulls(res[i].get("obs", {})), "query")
+    vlib.log("[C02] leg float-exponent: %d powers, %d silent" % (len(pairs), nsil))
+    if nsil > len(pairs) // 3:
+        raise vlib.ToolError("float-exponent leg: the specification was silent on %d of %d cases" % (nsil, len(pairs)))
+    run.sample({"leg": "float-exponent", "q": pairs[len(pairs) // 2][0]})
 
 
 def envs(run):
@@ -89,6 +146,8 @@ def run(tier, seed):
     evalkit.decide(run, texts, "tree", env=env, shards=shards, nontrivial=identish)
     run.sample({"leg": "tree", "alphabet": lits, "q": t1[len(t1) // 2]})
     run.sample({"leg": "functions", "q": t3[len(t3) // 2]})
+
+    float_exponent_leg(run, env, thorough)
 
     n = 50000 if thorough else 6000
     tv = [rand_tree(rng, dump, rng.randint(1, 4)) for _ in range(n)]
